@@ -6,7 +6,11 @@ Case line:   sy|<obj>,<obj>,...|<cmd>;<cmd>;...
   <obj>  = kx:ky:kl:km      trait kinds of the scalar traits x, y and of the items of the list traits l, m
          | name=kind:name=*kind:...   any class shape: `*` marks a List trait (kind = kind of its items).  Names
            are opaque to the model; the same name may be a List trait in one class, a scalar trait in another,
-           absent in a third; names may contain `_items` (`menu_items`)
+           absent in a third; names may contain `_items` (`menu_items`).  A List kind may carry a flavour,
+           `name=*kind+f`: how the class gets the trait and its default - dm: `_name_default` method on the class,
+           ds: `_name_default` method only on a subclass (the object is an instance of the subclass), so: a subclass
+           overrides the default by value (`name = [1, 2]`), sub: declared with a subclass of List.  dm / ds / so
+           make the default [1,2] (kinds int, cint, rng, mod7; [] otherwise), which is the model's initial value
   kinds  = int (Int) | str (Str) | cint (CInt) | rng (Range(-3,3)) | mod7 | inc   (the last two are TraitTypes
            defined here: an idempotent, non-injective coercion and a non-idempotent one)
   <cmd>  = as <o> <name> <val>                 setattr(obj_o, name, val)   val = 5 | s5 (the str '5') | [1,2]
@@ -70,16 +74,21 @@ def make_trait(kind):
     return _trait_types()[kind]()
 
 
+FLAVOURS = ("dm", "ds", "so", "sub")
+
+
 def parse_spec(s):
-    """-> tuple of (name, is_list, kind)."""
+    """-> tuple of (name, is_list, kind, flavour)."""
     parts = [t.strip() for t in s.strip().split(":")]
     if any("=" in t for t in parts):
         out = []
         for t in parts:
             n, k = t.split("=")
-            out.append((n, k.startswith("*"), k.lstrip("*")))
+            il = k.startswith("*")
+            k, _, fl = k.lstrip("*").partition("+")
+            out.append((n, il, k, fl))
         return tuple(out)
-    return tuple((n, n in LISTS, k) for n, k in zip(NAMES, parts))
+    return tuple((n, n in LISTS, k, "") for n, k in zip(NAMES, parts))
 
 
 def names(spec):
@@ -91,9 +100,10 @@ def lists(spec):
 
 
 def decl(spec, name):
+    """-> (name, is_list, kind)"""
     for d in spec:
         if d[0] == name:
-            return d
+            return d[:3]
     raise KeyError(name)
 
 
@@ -105,13 +115,42 @@ def kind_of(spec, name):
     return decl(spec, name)[2]
 
 
+def default_of(d):
+    """The default value of a declared trait (= the model's initial value)."""
+    n, il, k, fl = d
+    if il:
+        return [1, 2] if fl in ("dm", "ds", "so") and k in ("int", "cint", "rng", "mod7") else []
+    return "0" if k == "str" else 0
+
+
 def make_class(spec):
-    """spec = tuple of (name, is_list, kind)."""
+    """spec = tuple of (name, is_list, kind, flavour)."""
     c = _classes.get(spec)
     if c is None:
         from traits.api import HasTraits, List
-        c = type("O_" + "_".join("%s%s%s" % (n, "L" if il else "S", k) for n, il, k in spec), (HasTraits,),
-                 {n: (List(make_trait(k)) if il else make_trait(k)) for n, il, k in spec})
+
+        class SubList(List):
+            """a List trait type declared through a subclass of List"""
+
+        def method(value):
+            return lambda self: list(value)
+        base, sub = {}, {}
+        for d in spec:
+            n, il, k, fl = d
+            if not il:
+                base[n] = make_trait(k)
+                continue
+            base[n] = (SubList if fl == "sub" else List)(make_trait(k))
+            if fl == "dm":
+                base["_%s_default" % n] = method(default_of(d))
+            elif fl == "ds":
+                sub["_%s_default" % n] = method(default_of(d))
+            elif fl == "so":
+                sub[n] = list(default_of(d))
+        tag = "_".join("%s%s%s%s" % (n, "L" if il else "S", k, fl) for n, il, k, fl in spec)
+        c = type("O_" + tag, (HasTraits,), base)
+        if sub:
+            c = type("OS_" + tag, (c,), sub)
         _classes[spec] = c
     return c
 
@@ -405,6 +444,7 @@ def random_history(rng, maxcmds=12, gc_heavy=False, shape=None):
 # scalar trait named like their stem.  (A class cannot have List traits `menu` and `menu_items` both: the items
 # event of the first is the trait `menu_items`.)
 SHAPES = (
+    "x=K:y=K:l=*K:m=*K",
     "x=K:y=K:l=*K:menu_items=*K",
     "x=K:m=*K:n=K:menu_items=*K",
     "y=K:n=*K:m=K:menu=K",
@@ -420,12 +460,21 @@ def random_shape_history(rng, maxcmds=14):
     of one link among several; in-place mutations of the hub (and of the partners) before and after."""
     k = rng.choice(["int", "int", "int", "cint", "mod7", "rng"])
     nobj = rng.choice([3, 3, 4, 2])
-    specs_s = [rng.choice(SHAPES).replace("K", k) for _ in range(nobj)]
+    def flavoured(shape):
+        # how the class comes by its List traits and their defaults: static, `_name_default` method (own / only in
+        # a subclass), default overridden by value in a subclass, subclass of List - mixed within one link graph
+        return ":".join(t + ("+" + rng.choice(FLAVOURS) if "*" in t and rng.random() < 0.4 else "")
+                        for t in shape.split(":"))
+    specs_s = [flavoured(rng.choice(SHAPES)).replace("K", k) for _ in range(nobj)]
     if rng.random() < 0.15:
-        specs_s[rng.randrange(nobj)] = rng.choice(SHAPES).replace("K", rng.choice(KINDS))
+        specs_s[rng.randrange(nobj)] = flavoured(rng.choice(SHAPES)).replace("K", rng.choice(KINDS))
     specs = [parse_spec(t) for t in specs_s]
     alive = list(range(nobj))
     cmds, links, shadow = [], [], {}
+    for o, sp in enumerate(specs):
+        for d in sp:
+            if d[1]:
+                shadow[(o, d[0])] = list(default_of(d))
 
     def spread(o, n):
         seen, todo = {(o, n)}, [(o, n)]
@@ -440,7 +489,7 @@ def random_shape_history(rng, maxcmds=14):
             shadow[y] = list(shadow.get((o, n), []))
 
     def pick(o, lst):
-        c = [n for n, il, _ in specs[o] if il == lst]
+        c = [d[0] for d in specs[o] if d[1] == lst]
         return rng.choice(c) if c else None
 
     hub = 0
@@ -457,7 +506,7 @@ def random_shape_history(rng, maxcmds=14):
             cmds.append("li %d %s %d %s %d" % (hub, hn, o, n2, rng.choice([1, 1, 0])))
         else:
             cmds.append("li %d %s %d %s 1" % (o, n2, hub, hn))
-    if hn is not None:
+    if hn is not None and rng.random() < 0.6:
         v = rand_listval(rng, kind_of(specs[hub], hn), True, lo=2, hi=6)
         cmds.append("as %d %s %s" % (hub, hn, v))
         shadow[(hub, hn)] = list(S.parse_list(v))
